@@ -279,7 +279,7 @@ def check(ctx, tree, leaves0, dsl, cfg):
 
 def run_shard(ctx):
     preds = ['none', 'is_tuple'] if ctx.tier == 'quick' else ['none', 'is_tuple', 'custom']
-    modes = ['sorted', 'ins_ns'] if ctx.tier == 'quick' else None
+    modes = None
     nss = ['', 'ns'] if ctx.tier == 'quick' else None
     e1.drive(ctx, ctx.tier, lambda tree, leaves, dsl, cfg: check(ctx, tree, leaves, dsl, cfg),
              profile='tiny', cfgs=e1.configs(ctx.tier, predicates=preds, modes=modes, namespaces=nss))
